@@ -168,7 +168,9 @@ def tlc(spec_tla, cfg, workers=8, timeout=900, simulate=None, depth=None, seed_=
     if java_opts:
         jopts += java_opts
     cmd = ["java"] + jopts + ["-cp", TLA_CP, "tlc2.TLC", "-workers", str(workers), "-metadir", metadir,
-                              "-cleanup", "-noGenerateSpecTE", "-config", cfg]
+                              "-cleanup", "-noGenerateSpecTE", "-checkpoint", "0", "-config", cfg]
+    # -checkpoint 0: no periodic checkpoints (after 30 minutes TLC would try to checkpoint, which the depth-first StateDeque used
+    # for trace validation does not support: the run would die without a verdict)
     if simulate is not None:
         cmd += ["-simulate", "num=%d" % simulate]
         if depth:
